@@ -8,4 +8,4 @@ Extraction "model.ml"
   filter_escape filter_addslashes filter_safe filter_escapejs filter_urlencode
   filter_iriencode filter_striptags filter_removetags
   lex api_render_string api_render_file api_compile_only mkWorld mkLoader apply_filter
-  parse_expression parse_fuel fsloader_abs path_clean.
+  parse_expression parse_fuel itoa format6 fsloader_abs path_clean.
